@@ -461,10 +461,12 @@ def run(ctx):
             run_place(ctx, {"kind": "l2_place", "cdims": t["inp"]["cdims"], "tmpl": t["inp"]["tmpl"], "poses": t["inp"]["poses"],
                             "placed": t["out"]["placed"], "shifted": t["out"]["shifted"], "variant": var(i)})
     ctx.exhaustive["L2_place"] = True
-    wins = sorted(kinds["window"], key=lambda t: core.stable_hash([seed, t["inp"]]))
-    budget = ctx.pick(700, len(wins))
-    ctx.exhaustive["L2_window"] = budget >= len(wins)
-    for t in wins[:budget]:
+    # centred windows (crop / pad) are always replayed; the grid of off-centre windows is sub-sampled in the quick tier
+    centred = [t for t in kinds["window"] if t["inp"]["centre"] == [v // 2 for v in t["inp"]["vdims"]]]
+    grid = sorted([t for t in kinds["window"] if t not in centred], key=lambda t: core.stable_hash([seed, t["inp"]]))
+    budget = ctx.pick(700, len(grid))
+    ctx.exhaustive["L2_window"] = budget >= len(grid)
+    for t in centred + grid[:budget]:
         i += 1
         run_window(ctx, {"kind": "l2_window", "vdims": t["inp"]["vdims"], "centre": t["inp"]["centre"], "shape": t["inp"]["shape"],
                          "axes": t["out"]["axes"], "variant": var(i)})
